@@ -1060,14 +1060,15 @@ func (ex *Exec) specGoType(name, pkgPath string) types.Type {
 // specApp applies a spec function, declaring/defining it on first use.
 func (ex *Exec) specApp(sf *SpecFn, args []*Term, pkgPath string) *Term {
 	p := ex.p
-	if sf.Decl == nil {
+	d := ex.specDecls[sf.Name]
+	if d == nil {
 		var ps []*Sort
 		for _, sp := range sf.Params {
 			ps = append(ps, ex.specSort(sp.Type, specPkg(sf, pkgPath)))
 		}
 		ret := ex.specSort(sf.Ret, specPkg(sf, pkgPath))
-		d := p.Func("spec:"+sf.Name, ps, ret)
-		sf.Decl = d
+		d = p.Func("spec:"+sf.Name, ps, ret)
+		ex.specDecls[sf.Name] = d
 		if sf.Body != nil {
 			d.Rec = strings.Contains(sf.BodyTxt, sf.Name+"(")
 			vars := map[string]tv{}
@@ -1079,9 +1080,6 @@ func (ex *Exec) specApp(sf *SpecFn, args []*Term, pkgPath string) *Term {
 			// body must not depend on program state
 			ctx := &EvalCtx{ex: ex, st: ex.emptyState(), vars: vars, pkgPath: specPkg(sf, pkgPath),
 				clause: &Clause{Text: sf.BodyTxt, File: sf.File, Line: sf.Line}}
-			if d.Rec {
-				// allow the recursive reference: Decl already set
-			}
 			body := ctx.asTerm(ctx.eval(sf.Body))
 			if body.Sort.String() != ret.String() {
 				panic(execPanic{fmt.Sprintf("spec fn %s: body sort %s, declared %s", sf.Name, body.Sort, ret)})
@@ -1089,13 +1087,16 @@ func (ex *Exec) specApp(sf *SpecFn, args []*Term, pkgPath string) *Term {
 			d.DefBody = body
 		}
 	}
-	if len(args) != len(sf.Decl.Params) {
-		panic(execPanic{fmt.Sprintf("spec fn %s: %d args, want %d", sf.Name, len(args), len(sf.Decl.Params))})
+	if len(args) != len(d.Params) {
+		panic(execPanic{fmt.Sprintf("spec fn %s: %d args, want %d", sf.Name, len(args), len(d.Params))})
 	}
-	return p.App(sf.Decl, args...)
+	return p.App(d, args...)
 }
 
 func specPkg(sf *SpecFn, fallback string) string {
+	if sf.PkgPath != "" {
+		return sf.PkgPath
+	}
 	return fallback
 }
 
